@@ -197,7 +197,18 @@ pub fn project_of(c: &Case) -> (Project, u64) {
             let mut t = String::new();
             for _ in 0..1 + e.below(3) {
                 let n = *e.pick(&hostile[..]);
-                let line = match e.below(8) {
+                let ident = |e: &mut Ent| -> &'static str { *e.pick(&["segments", "default", "start", "end", "index", "cpu", "a", "x", "flags", "carry", "sp", "TEST", "ram", "defined", "s0", "test", "q"][..]) };
+                let line = match e.below(14) {
+                    13 => format!("segments: {{\n {}: {{\n  {}: nop\n }}\n}}", *e.pick(&["default", "s0", "q"][..]), *e.pick(&["start", "end", "x"][..])),
+                    8 => {
+                        // nested scopes whose path may coincide with a symbol the assembler generates itself
+                        let (a, b, c2) = (ident(&mut e), ident(&mut e), ident(&mut e));
+                        format!("{}: {{\n {}: {{\n  {}: nop\n }}\n}}", a, b, c2)
+                    }
+                    9 => format!(".const {} = 1\n.var {} = 2\nlda #{}", ident(&mut e), ident(&mut e), ident(&mut e)),
+                    10 => format!("{}: {{ .const {} = 3 }}\nlda {}.{}", ident(&mut e), ident(&mut e), ident(&mut e), ident(&mut e)),
+                    11 => format!(".loop 2 {{ {}: nop }}\n.test \"t\" {{ {}: nop\n.assert {}.{} == 0\nbrk }}", ident(&mut e), ident(&mut e), ident(&mut e), ident(&mut e)),
+                    12 => format!(".macro {}({}) {{ lda #{} }}\n{}(1)", ident(&mut e), ident(&mut e), ident(&mut e), ident(&mut e)),
                     0 => format!(".define segment {{ name = \"{}\" start = $1000 }}", n),
                     1 => format!(".define bank {{ name = \"{}\" }}", n),
                     2 => format!(".segment \"{}\" {{ nop }}", n),
@@ -379,6 +390,54 @@ pub fn run_pipeline(p: &Project) -> Value {
     out.insert("passes".into(), json!(max_passes));
     out.insert("stages".into(), json!(stages));
     Value::Object(out)
+}
+
+/// Inputs of the coverage-guided target (harness/fuzz) that lie inside this check's domain: the same exclusions as
+/// the generated campaigns, decided on the raw text (termination of huge `.loop`/`.align`/bank sizes cannot be
+/// decided without a clock, and unbounded nesting is unbounded recursion).
+pub fn fuzz_domain(text: &str) -> bool {
+    if text.len() > 4096 {
+        return false;
+    }
+    let mut depth = 0i32;
+    for c in text.chars() {
+        match c {
+            '{' | '(' | '[' => {
+                depth += 1;
+                if depth > 48 {
+                    return false;
+                }
+            }
+            '}' | ')' | ']' => depth = (depth - 1).max(0),
+            _ => {}
+        }
+    }
+    let lower = text.to_lowercase();
+    let small_literal_after = |at: usize, max: u64| -> bool {
+        let rest = lower[at..].trim_start_matches(|c: char| c == ' ' || c == '\t' || c == '=');
+        let digits: String = rest.chars().take_while(|c| c.is_ascii_digit()).collect();
+        if digits.is_empty() || digits.len() > 6 {
+            return false;
+        }
+        let after = rest[digits.len()..].chars().next();
+        let plain = matches!(after, None | Some(' ') | Some('\t') | Some('\n') | Some('\r') | Some('{') | Some('}') | Some('/'));
+        plain && digits.parse::<u64>().map(|v| v <= max).unwrap_or(false)
+    };
+    let mut loops = 0;
+    for (kw, max) in [(".loop", 40u64), (".align", 4096), ("size", 70_000), ("fill", 255)] {
+        let mut from = 0;
+        while let Some(i) = lower[from..].find(kw) {
+            let at = from + i + kw.len();
+            if kw == ".loop" {
+                loops += 1;
+            }
+            if !small_literal_after(at, max) {
+                return false;
+            }
+            from = at;
+        }
+    }
+    loops <= 3
 }
 
 pub fn worker_main() {
